@@ -1286,6 +1286,66 @@ func checkC02(P *Program, r *Result, tier string) {
 	if recs := depthRules(P, r, newAnalysis(P), dscope); recs < 5 {
 		r.fatal("expected 5 recursive skipper bodies, found %d", recs)
 	}
+	// ---- a well-formed value is not refused: every error the skippers make themselves answers one of the conditions
+	// the grammar knows (input too short, negative size, unknown type tag, depth exhausted), and says so ----
+	{
+		A := newAnalysis(P)
+		nrej := 0
+		for _, fn := range dscope {
+			if fn == nil || fn.Blocks == nil || isGenericOrigin(fn) {
+				continue
+			}
+			ei := errIndex(fn)
+			if ei < 0 {
+				continue
+			}
+			fa := A.fa(fn)
+			fa.noGeneralize = true
+			for _, ret := range returnsOf(fn) {
+				ev := ret.Results[ei]
+				t, known := exceptionTypeOf(P, ev)
+				if !known {
+					continue // nil, a callee's error handed on, a wrapped source error
+				}
+				nrej++
+				classify := func(pb, b *ssa.BasicBlock) (string, string) {
+					var cls, why string
+					if pb == nil {
+						cls, why = causeClass(P, fa, b)
+					} else {
+						cls, why = causeClassEdge(P, fa, pb, b)
+					}
+					if cls == "" || cls == "NEG" {
+						if c2 := rejectClassExtra(pb, b); c2 != "" {
+							cls, why = c2, ""
+						}
+					}
+					return cls, why
+				}
+				cls, why := classify(nil, ret.Block())
+				if cls == "" && why == "join" {
+					// "a || b → error": every way in is one of the known conditions, all of the same class
+					for i, pb := range ret.Block().Preds {
+						c, w := classify(pb, ret.Block())
+						if i == 0 {
+							cls, why = c, w
+						} else if c != cls {
+							cls, why = "", "the ways into this return answer different conditions"
+						}
+					}
+				}
+				ok := cls != "" && cls != "CALLEE-ERR" && cls != "TAG" && cls != "VERSION" && classWants[cls] == t
+				detail := ""
+				if !ok {
+					detail = fmt.Sprintf("the %s exception is returned under a condition of class %q %s", excName[t], cls, why)
+				}
+				r.add("GRAMMAR", shortName(fn), "reject", "an error made by the skipper answers a short input, a negative size, an unknown tag or an exhausted depth, with the matching exception type", P.pos(instrPos(ret)), ok, detail)
+			}
+		}
+		if nrej < 5 {
+			r.fatal("expected the skippers' own error returns, found %d", nrej)
+		}
+	}
 	// ---- TIGHT ----
 	var spanFns []*ssa.Function
 	for _, f := range P.reachable([]*ssa.Function{pubSkip}, func(f *ssa.Function) bool { return !inRepo(f) }) {
@@ -2375,4 +2435,54 @@ func beLoadRule(P *Program, r *Result, rule string) {
 func isByteType(t types.Type) bool {
 	b, ok := t.Underlying().(*types.Basic)
 	return ok && b.Kind() == types.Uint8
+}
+
+// rejectClassExtra reads two more spellings of the grammar's reject conditions on the edge into b: a size compared with
+// the largest i32 (a value above it is negative as a Thrift i32), and the fixed-size table answering "no size" for a tag
+// (a tag that is neither fixed-size nor one of the dispatched ones is unknown).
+func rejectClassExtra(pb, b *ssa.BasicBlock) string {
+	for hops := 0; hops < 4 && b != nil; hops++ {
+		p := pb
+		pb = nil
+		if p == nil {
+			if len(b.Preds) != 1 {
+				return ""
+			}
+			p = b.Preds[0]
+		}
+		iff, ok := p.Instrs[len(p.Instrs)-1].(*ssa.If)
+		if !ok {
+			b = p
+			continue
+		}
+		for _, dc := range condImplies(iff.Cond, p.Succs[0] == b, 0) {
+			bo, ok := dc.Cond.(*ssa.BinOp)
+			if !ok {
+				continue
+			}
+			if k, isC := constInt(bo.Y); isC && k == 2147483647 && ((bo.Op == token.GTR && dc.Truth) || (bo.Op == token.LEQ && !dc.Truth)) {
+				return "NEG"
+			}
+			if k, isC := constInt(bo.Y); isC && k == 0 && ((bo.Op == token.LEQ && dc.Truth) || (bo.Op == token.GTR && !dc.Truth) || (bo.Op == token.EQL && dc.Truth) || (bo.Op == token.NEQ && !dc.Truth)) {
+				// the value is (a widening of) an element of a package-level table indexed by the tag
+				v := bo.X
+				for {
+					if cv, isCv := v.(*ssa.Convert); isCv {
+						v = cv.X
+						continue
+					}
+					break
+				}
+				if ld, isLd := v.(*ssa.UnOp); isLd && ld.Op == token.MUL {
+					if ia, isIA := ld.X.(*ssa.IndexAddr); isIA {
+						if _, isG := ia.X.(*ssa.Global); isG {
+							return "UNKNOWN-TAG"
+						}
+					}
+				}
+			}
+		}
+		return ""
+	}
+	return ""
 }
